@@ -161,17 +161,17 @@ CLAIMS.update({
 EXTRA = {
  "C01": "fresh-backing-array analysis of struct copies whose slice fields are written in place; typestate/dominance analysis of the lookahead token in every parse(); reset and per-item dataflow rules; final-state guard of minimize",
  "C02": "floor of the trailing-empty trimming loops; typestate analysis of p.next positions; audited field-role table for syntax.Input flags; equality of merged list expressions including the node type of nested arrows",
- "C03": "decision table of conflictBuilder.hasConflict; min-update idiom check of the SCC pass; sentinel-index guards; planner scenarios of ruleAction",
- "C04": "all-pairs-store path check of Optimize rows; operand-order check of compiler.or",
+ "C03": "decision table of conflictBuilder.hasConflict; min-update idiom check of the SCC pass; sentinel-index guards; planner scenarios of ruleAction; decision table of ambiguity.add",
+ "C04": "all-pairs-store path check of Optimize rows; operand-order check of compiler.or; decision table of ambiguity.add (20 pairs of stored and new answer)",
  "C05": "scratch-histogram reset analysis; loop-bound check of the bit-set scans; option-key to field map; same-name plumbing of lalr.Options; default-table fallback at every decode site of the generated parsers; reference-side end-of-block check of DefaultEnc.gotoState; substitution of unfilled cells independent of the chosen default",
  "C06": "trailing-nullable component of the rule-class key; cast-action key coverage; seen-set de-duplication of remapped marker states; final-state guard; lock-step of the two rule copies; injectivity of lookahead-row signature elements; memo-key agreement with generated lookahead()",
  "C07": "lost-write analysis of range copies (trie minimisation); phase coverage of terminal-transition follow sets; exhaustion of collecting loops; who-may-call rule for Lexer.Next; propagation of unresolved trie nodes; loop-carried scratch copy of deep lookahead; scan-termination sibling check of lookahead rows",
- "C08": "decision-table extraction of pickLookahead (120 polarity sequences) and of ruleAction's planner branch; memo-key agreement",
+ "C08": "decision-table extraction of pickLookahead (120 polarity sequences) and of ruleAction's planner branch; memo-key agreement; per-item re-initialisation of the negation flag in generateTables",
  "C09": "cursor-minus-constant clause on the size flow of Tables.Scan (rune mode advances by a variable width)",
- "C10": "finite-state exploration of in-place range filters (len(out)-i); call-order of class assembly; Offset/Column lock-step",
+ "C10": "finite-state exploration of in-place range filters (len(out)-i); call-order of class assembly; Offset/Column lock-step; field coverage of rebuilt CharsetOptions",
  "C11": "reserved-token constant agreement of canInlineRules; stale-offset check of rewind; reader/writer agreement of the compressed rune map; checkpoint reset on every edge into the scan loop; declaration-implies-maintenance formulas for line/lineOffset in the lexer template; end-of-input cycle check of the generator; single-line token comments; decision table of rune folding; lost-write analysis of range copies in the lexer compiler",
  "C12": "cursor step discipline; reader/writer agreement of the compressed rune map; checkpoint reset; declaration-implies-maintenance formulas for line/lineOffset; end-of-input cycle check of the generator",
- "C13": "terminal-boundary comparison audit; separator placement under the recursion flag; path guard of dropped Empty children",
+ "C13": "terminal-boundary comparison audit; separator placement under the recursion flag; path guard of dropped Empty children; alias wrapping of named set slots; once-only renumbering of shared token-set nodes",
  "C14": "scratch bit-set reset scopes; name-based provenance of Arg.TakeFrom; path guard of dropped Empty children; terminal-boundary comparison audit (48 sites); wrapper order of convertRules; escape analysis through callees that retain slices; renumbering coverage",
  "C15": "all-paths reachability of the set-contribution test; first-match shape of the input seeding loop; copy-source guard of named-set slots",
  "C16": "marker-free remap counter; Pos coverage of extracted references; sharing-key and renumbering field coverage; comma-ok discipline of ActionVars.Remap; name propagation out of nested groups; top-level invariant of rhsRule.top (stores are nil, tested with isTopLevel, or another rule's .top)",
@@ -181,9 +181,9 @@ EXTRA = {
  "C20": "must-write analysis of Init (and of parse() for Parser) for every run-state field of Lexer/Parser/TokenStream",
  "C21": "fresh-backing-array analysis of copied field records; child test of addNode; save/restore dominance; sibling check of the two Tarjan implementations; unconditional rule-class key components; compare-and-store agreement of min updates in syntax; residue-with-quotient rule for the bit test of generated selectors; equality of merged list expressions including arrow types",
  "C22": "lookup-index guard; in-progress memo reachability and mark-before-descend dominance; valid-anchor guard for optional nodes; Origin coverage of every syntax.Expr literal; next-element bound of range loops; sentinel inside the follow-set universe",
- "C23": "source-cursor bounds of the grammar lexer; sentinel-index guards in verbose conflict explanations; memoised recursions of the compiler; no success return of a change handler bypasses typecheck",
+ "C23": "source-cursor bounds of the grammar lexer; sentinel-index guards in verbose conflict explanations; memoised recursions of the compiler; no success return of a change handler bypasses typecheck; provenance of la-set elements as possibly-sentinel indices",
  "C25": "in-place merge exploration; min-update idiom and Tarjan sibling checks",
- "C28": "explicit-id path check; non-empty return analysis of ident.Produce; identifier-level freshness of extracted mid-rule nonterminals",
+ "C28": "explicit-id path check; non-empty return analysis of ident.Produce; identifier-level freshness of extracted mid-rule nonterminals; non-empty-sub-slice condition of the name tested by the fallback",
  "C29": "must-return of parser errors in ast.Parse; monotonicity of the poll counter; identity of the error handler handed to the parser; use-only-in-return of ctx.Err(); check-before-use of results that come with a cancellation error; error-before-next-predicate on the template's lookahead chains",
  "C30": "three-copy agreement of %prec; Reference literals carry Model; kinds reaching ExprString; token-ID vs nonterminal-name namespace check",
 }
@@ -196,7 +196,7 @@ CLAIMS.update({
 })
 
 CLAIMS.update({
- "C27": ("cursor provenance of hunk origins; strictness of the furthest-reaching selection in both Myers searches; arithmetic consistency of run abbreviation; taint of the diff text into format strings; dominance guard on the equality shortcut; governing-condition table of the hunk size counters; field lock-step of chunk.merge; AST mirror comparison of the edit-script base cases; finite-state exploration of the in-place chunk merge",
+ "C27": ("pass-through of the operands of LineDiff in its non-test callers; cursor provenance of hunk origins; strictness of the furthest-reaching selection in both Myers searches; arithmetic consistency of run abbreviation; taint of the diff text into format strings; dominance guard on the equality shortcut; governing-condition table of the hunk size counters; field lock-step of chunk.merge; AST mirror comparison of the edit-script base cases; finite-state exploration of the in-place chunk merge",
          "Decides structural necessary conditions of the line diff: equal texts return the empty diff before anything is computed; hunk.add counts context and removed lines on the left and context and added lines on the right of the @@ header; chunk.merge adds del, ins and eq each; the len(a)==1 and len(b)==1 base cases of the recursion are mirror images; the in-place merge of chunks never overwrites unread chunks. It does not decide minimality of the script (Myers' middle snake), that unequal texts render a non-empty diff, or that hunks apply.",
          "Minimality and hunk applicability are numerical/round-trip properties of runtime data and stay undecided; util/diff is used by tests only.",
          "A.2 (C27), 6"),
